@@ -178,7 +178,13 @@ def check (ps : PState) (evLine : String) (obs : List String) (fault : Option St
         [s!"C04 SEID {hexN seid} is not a live session and must be answered 'context not found' without effect; the UPF faulted ({f})"] else []
     let f05 := if typ == "recv" && kind == "srrsp" && seid == 0 then
         ["C05 a Session Report Response with SEID 0 faulted the UPF instead of removing the matching session"] else []
-    (ps, f07 ++ f04 ++ f05)
+    -- C08: every request is answered at the sender's address with its sequence number; a faulted UPF answers nothing
+    let f08 := if typ == "recv" && kind ∈ ["hb", "assoc", "est", "mod", "del"] then
+        [s!"C08 the {kind} request from p{peer} seq {seq}" ++
+         (if (kind == "mod" || kind == "del") && (ps.prev.live seid).isNone
+          then s!" for SEID {hexN seid} (no such session: 'session context not found' with SEID 0 is due)" else "") ++
+         s!" was not answered; the UPF faulted ({f})"] else []
+    (ps, f07 ++ f04 ++ f05 ++ f08)
   | none =>
   let d := match dump with
     | some l => parseDump l
